@@ -509,11 +509,29 @@ func (v *view) update(table string, old, nw row) (res []string, note string, dea
 	if len(fail) > 0 {
 		return fail, note, false
 	}
-	// cascade updates (computed on the view before the parent changes)
+	// cascade updates, to any depth
+	if fails, n := v.cascade(table, old, nw); len(fails) > 0 {
+		return fails, n, true
+	}
+	return []string{resOK}, "", false
+}
+
+// cascade moves a row whose change has been accepted and applies the cascading updates of
+// the rows that refer to its changed keys, recursively (a cascaded row can itself be the
+// target of foreign keys). It returns the kinds of failure that the cascade can run into
+// (the implementation stops at the first one and aborts the transaction).
+func (v *view) cascade(table string, old, nw row) (fails []string, note string) {
+	if v.depth > 50 {
+		return []string{resDead}, "cascade-cycle"
+	}
+	v.depth++
+	defer func() { v.depth-- }()
+	t := v.sm.tables[table]
 	type upd struct {
 		table    string
 		old, new row
 	}
+	// computed on the view before the row moves
 	var ups []upd
 	for _, ix := range t.Idx {
 		if ix.Mode == 'i' || fieldsOf(old, ix.Cols) == fieldsOf(nw, ix.Cols) {
@@ -521,6 +539,9 @@ func (v *view) update(table string, old, nw row) (res []string, note string, dea
 		}
 		for rf, kids := range v.children(table, old, ix.Cols) {
 			cix := v.sm.tables[rf.table].Idx[rf.idx]
+			if cix.FkMode&1 == 0 {
+				continue
+			}
 			for _, k := range kids {
 				nk := append(row(nil), k...)
 				for j, c := range cix.Cols {
@@ -530,18 +551,49 @@ func (v *view) update(table string, old, nw row) (res []string, note string, dea
 			}
 		}
 	}
-	// the parent moves first in the model; the implementation updates children first, but
-	// both are inside one atomic operation
+	// the row moves first in the model; the implementation updates the referring rows first,
+	// but both are inside one atomic operation
 	v.del(table, old)
 	v.put(table, nw)
+	failset := map[string]bool{}
 	for _, u := range ups {
 		if v.dupCheck(u.table, u.new, u.old, true) {
-			return []string{resDup}, "cascade-update-dup", true
+			failset[resDup] = true
+			note = "cascade-update-dup"
+			continue
 		}
-		v.del(u.table, u.old)
-		v.put(u.table, u.new)
+		// a key of the referring row that changes may itself be referred to
+		ct := v.sm.tables[u.table]
+		blocked := false
+		for _, ix := range ct.Idx {
+			if ix.Mode == 'i' || fieldsOf(u.old, ix.Cols) == fieldsOf(u.new, ix.Cols) {
+				continue
+			}
+			for rf, kids := range v.children(u.table, u.old, ix.Cols) {
+				if len(kids) > 0 && v.sm.tables[rf.table].Idx[rf.idx].FkMode&1 == 0 {
+					blocked = true
+				}
+			}
+		}
+		if blocked {
+			failset[resFk] = true
+			note = "cascade/update-target-with-sources"
+			continue
+		}
+		f, n := v.cascade(u.table, u.old, u.new)
+		for _, x := range f {
+			failset[x] = true
+		}
+		if n != "" {
+			note = n
+		}
 	}
-	return []string{resOK}, "", false
+	for _, k := range []string{resDup, resFk, resDead} {
+		if failset[k] {
+			fails = append(fails, k)
+		}
+	}
+	return fails, note
 }
 
 // ---------------------------------------------------------------------------------------
